@@ -15,7 +15,7 @@
    (regenerated from the source on every run).  The file system is keyed by byte strings; every process has its
    own configuration (socket, pid and seed path), so daemons on different — possibly overlapping — socket paths
    run in one state.  socket() + strlcpy + length test + bind are one step (CBind), as socket() touches no name;
-   the program therefore has the same 17 positions as StartModel.prog. *)
+   the program therefore has the same 20 positions as StartModel.prog. *)
 From Coq Require Import List Arith NArith Bool.
 From Coq.Strings Require Import Byte.
 From MV Require Import Bytes StartModel.
@@ -46,40 +46,46 @@ Definition bind_name (c : conf) : bytes := fst (bind_copy c).
 
 (* ---- the program over byte-string names ---- *)
 Inductive cprim :=
+| CReadSeed (nm : bytes)
 | COpenLock (nm : bytes)
 | CFstatLock
 | CSetLk
 | CUnlink (nm : bytes)
 | CBind (refuse : bool) (nm : bytes)   (* socket; strlcpy; length test (refuse => exit); bind (nm) *)
 | CListen
+| COpenPid (nm : bytes)
 | CWritePid (nm : bytes)
 | CServe
 | CCloseSock
 | CCloseLock
+| COpenSeed (nm : bytes)
 | CWriteSeed (nm : bytes)
 | CExit.
 
 Definition cstartup (c : conf) : list cprim :=
-  [COpenLock (lock_name_of (c_sock c)); CFstatLock; CSetLk; CUnlink (c_sock c);
-   CBind (refuses c) (bind_name c); CListen; CUnlink (c_pid c); CWritePid (c_pid c)].
+  [CReadSeed (c_seed c); COpenLock (lock_name_of (c_sock c)); CFstatLock; CSetLk; CUnlink (c_sock c);
+   CBind (refuses c) (bind_name c); CListen; CUnlink (c_pid c); COpenPid (c_pid c); CWritePid (c_pid c)].
 Definition cshutdown (c : conf) : list cprim :=
   [CUnlink (c_sock c); CCloseSock; CUnlink (lock_name_of (c_sock c)); CCloseLock;
-   CUnlink (c_seed c); CWriteSeed (c_seed c); CUnlink (c_pid c); CExit].
+   CUnlink (c_seed c); COpenSeed (c_seed c); CWriteSeed (c_seed c); CUnlink (c_pid c); CExit].
 Definition cprog (c : conf) : list cprim := cstartup c ++ [CServe] ++ cshutdown c.
 
 (* the token program of StartModel under an interpretation of its four tokens *)
 Definition concretize (iota : name -> bytes) (a : prim) : cprim :=
   match a with
+  | ReadSeed => CReadSeed (iota NSeed)
   | OpenLock => COpenLock (iota NLock)
   | FstatLock => CFstatLock
   | SetLk => CSetLk
   | Unlink n => CUnlink (iota n)
   | Bind => CBind false (iota NSock)
   | Listen => CListen
+  | OpenPid => COpenPid (iota NPid)
   | WritePid => CWritePid (iota NPid)
   | Serve => CServe
   | CloseSock => CCloseSock
   | CloseLock => CCloseLock
+  | OpenSeed => COpenSeed (iota NSeed)
   | WriteSeed => CWriteSeed (iota NSeed)
   | Exit => CExit
   end.
@@ -136,6 +142,12 @@ Definition seed_inode' := mkIno Reg 384.
 
 Definition cexec (s : cstate) (p : nat) (pr : proc) (a : cprim) : coutcome :=
   match a with
+  | CReadSeed nm =>
+      match cnames s nm with
+      | None => CCont s pr
+      | Some f => if (match ccontent s f with Some _ => seed_read_full_returns | None => seed_read_short_returns end)
+                  then CCont s pr else CBlock
+      end
   | COpenLock nm =>
       match cnames s nm with
       | Some i => if lock_open_excl then CFail s else CCont s (set_lockfd pr (Some i))
@@ -174,10 +186,15 @@ Definition cexec (s : cstate) (p : nat) (pr : proc) (a : cprim) : coutcome :=
       | Some j => CCont (cset_listener s (upd (clistener s) j (Some p))) pr
       | None => CFail s
       end
+  | COpenPid nm =>
+      match cnames s nm with
+      | Some f => CCont (cset_content s (upd (ccontent s) f None)) pr
+      | None => CCont (cset_content (calloc s nm pid_inode) (upd (ccontent s) (cnext s) None)) pr
+      end
   | CWritePid nm =>
       match cnames s nm with
       | Some f => CCont (cset_content s (upd (ccontent s) f (Some p))) pr
-      | None => CCont (cset_content (calloc s nm pid_inode) (upd (ccontent s) (cnext s) (Some p))) pr
+      | None => CCont s pr
       end
   | CServe => CBlock
   | CCloseSock =>
@@ -190,10 +207,15 @@ Definition cexec (s : cstate) (p : nat) (pr : proc) (a : cprim) : coutcome :=
       | Some i => CCont (cset_lockown s (release1 (clockown s) i p)) (set_lockfd pr None)
       | None => CCont s pr
       end
+  | COpenSeed nm =>
+      match cnames s nm with
+      | Some f => CCont (cset_content s (upd (ccontent s) f None)) pr
+      | None => CCont (cset_content (calloc s nm seed_inode') (upd (ccontent s) (cnext s) None)) pr
+      end
   | CWriteSeed nm =>
       match cnames s nm with
-      | Some _ => CCont s pr
-      | None => CCont (calloc s nm seed_inode') pr
+      | Some f => CCont (cset_content s (upd (ccontent s) f (Some p))) pr
+      | None => CCont s pr
       end
   | CExit => CDone s
   end.
@@ -255,6 +277,9 @@ Definition is_sock (s : cstate) (nm : bytes) : bool :=
 (* who listens on the socket a name leads to *)
 Definition name_listener (s : cstate) (nm : bytes) : option nat :=
   match cnames s nm with Some j => clistener s j | None => None end.
+(* who wrote the file a name leads to completely (None: no file, or an empty one) *)
+Definition name_content (s : cstate) (nm : bytes) : option nat :=
+  match cnames s nm with Some f => ccontent s f | None => None end.
 Definition name_lock_holder (s : cstate) (nm : bytes) : option nat :=
   match cnames s nm with Some i => clockown s i | None => None end.
 Definition cobs_proc (s : cstate) (p : nat) : nat * nat * bool :=
